@@ -334,6 +334,10 @@ func (r Wrapper) getClientMetadataFromRequest(ctx context.Context, params oauthP
 			return nil, &oauth.OAuth2Error{Code: oauth.InvalidRequest, Description: "client_metadata and client_metadata_uri are mutually exclusive", InternalError: err}
 		}
 		err = json.Unmarshal([]byte(metadataString), &metadata)
+		if err == nil && metadata == nil {
+			// JSON null
+			err = errors.New("client_metadata is null")
+		}
 		if err != nil {
 			return nil, &oauth.OAuth2Error{Code: oauth.InvalidRequest, Description: "invalid client_metadata", InternalError: err}
 		}
